@@ -2,7 +2,7 @@
    hierarchical_clustering.py).  Each theorem is closed by a lemma of
    ProofsK.v / ProofsH.v; `Print Assumptions` follows each. *)
 From Coq Require Import List Bool ZArith QArith Lia.
-From NV.C14 Require Import Model ProofsK.
+From NV.C14 Require Import Model ProofsK ModelH ProofsH ProofsC.
 Import ListNotations.
 
 (* ====================================================================== *)
@@ -75,6 +75,20 @@ Proof. intros st d k X labels maxiter delta Hk Hm r. split; [apply kmeans_means|
   exact (kmeans_labels_valid st d k X labels maxiter delta Hk Hm). Qed.
 Print Assumptions kmeans_returns_means.
 
+(* (K7') the same for the public wrapper kmeans(X, nbclusters, Labels, maxiter,
+   delta) with its argument normalisation (nbclusters clamped to 1..n, maxiter
+   <= 0 -> 300 and delta < 0 -> 1e-4 when the labelling is accepted). *)
+Theorem kmeans_api_returns_means : forall st d k X labels maxiter delta, X <> [] ->
+  (api_labels_ok (api_k k (length X)) labels = true \/ (1 <= maxiter)%Z) ->
+  let k2 := Z.to_nat (api_k k (length X)) in
+  let r := kmeans_api st d k X labels maxiter delta in
+  (1 <= k2 <= length X)%nat /\ km_centers r = mstep d X (km_labels r) k2 /\
+  length (km_labels r) = length X /\ Forall (fun q => (q < k2)%nat) (km_labels r).
+Proof. intros st d k X labels maxiter delta Hne Hm k2 r.
+  destruct (kmeans_api_means st d k X labels maxiter delta Hne Hm) as (H1 & H2 & H3). unfold valid in H3.
+  destruct H3 as [H3 H4]. split; [exact H1|]. split; [exact H2|]. split; assumption. Qed.
+Print Assumptions kmeans_api_returns_means.
+
 (* (K8) the delicate clause, on the model's actual return values: from a fixed
    initial labelling, a larger maxiter never increases the within-cluster sum
    of squares of the RETURNED (centres, labels). *)
@@ -134,3 +148,122 @@ Example kmeans_run_empty_cluster :
   qmat_eqb (km_centers (kmeans true 1 3 km_w1 [0;0;0;0]%nat 1 0)) [[3]; [3]; [3]] = true /\
   km_labels (kmeans true 1 3 km_w1 [0;0;0;0]%nat 1 0) = [0;0;0;0]%nat.
 Proof. vm_compute. split; reflexivity. Qed.
+
+(* ====================================================================== *)
+(*  HIERARCHICAL  (ModelH.v)                                               *)
+(* ====================================================================== *)
+
+(* (H1) the cost `_inertia` computes from the sufficient statistics
+   (count, column sums, column sums of squares) of a non-empty cluster is its
+   within-cluster sum of squares  sum |x - mean|^2  (all dimensions, all data). *)
+Theorem ward_cost_is_merged_inertia : forall d (xs : list vec), xs <> [] ->
+  inertia_vec d (Qn (length xs)) (colsum d xs) (colsq d xs) == wss d xs.
+Proof. intros d xs H. apply inertia_vec_is_wss; [exact H|lia]. Qed.
+Print Assumptions ward_cost_is_merged_inertia.
+
+(* (H2) the within-cluster sum of squares grows with the cluster: the reason
+   why heights cannot decrease from a child to its parent. *)
+Theorem ward_cost_monotone : forall d (A B : list vec), A <> [] -> wss d A <= wss d (A ++ B).
+Proof. exact wss_monotone. Qed.
+Print Assumptions ward_cost_monotone.
+
+(* (H3) soundness of the certificate checkers that the harness evaluates (inside
+   Coq) on every (parents, height) the implementation returns.
+   dendro_check certifies ProperDendrogram: a forest with parents after
+   children, the items are leaves, heights non-decreasing child -> parent, every
+   non-item node is exactly one binary merge of two clusters joined by an edge
+   of the constraint graph, its height is the within-cluster SS of the merged
+   cluster, and no edge of the graph leaves a tree (so the trees are the
+   connected components).  ward_check adds CheapestMerges: every merge is the
+   cheapest among all pairs of clusters alive at that time joined by an edge.
+   PARTIAL w.r.t. the property statement: there is no proof that the model of
+   `ward` passes the checker for ALL inputs (the invariant of the edge/incidence
+   state machine is not proved); the clause is certified per case. *)
+Theorem dendrogram_certificate_sound_partial : forall d n G feat parents height,
+  (dendro_check d n G feat parents height = true -> ProperDendrogram d n G feat parents height) /\
+  (ward_check d n G feat parents height = true ->
+     ProperDendrogram d n G feat parents height /\ CheapestMerges d n G feat parents height).
+Proof. intros. split; [apply dendro_check_sound|apply ward_check_sound]. Qed.
+Print Assumptions dendrogram_certificate_sound_partial.
+
+(* (H3a) in a proper dendrogram the items below ANY node induce a connected
+   sub-graph of the constraint graph. *)
+Theorem subtree_items_connected : forall d n G feat parents height,
+  ProperDendrogram d n G feat parents height ->
+  forall v, (v < length parents)%nat -> forall x y,
+    LeafUnder n parents x v -> LeafUnder n parents y v ->
+    PathIn G (fun z => LeafUnder n parents z v) x y.
+Proof. exact node_connected. Qed.
+Print Assumptions subtree_items_connected.
+
+(* (H3b) partition(th) on a proper dendrogram, th above the leaves' height:
+   defined, one label per item, and two items share a label iff they have a
+   common ancestor of height < th. *)
+Theorem partition_at_height_spec : forall d n G feat parents height th,
+  ProperDendrogram d n G feat parents height -> (n <= length parents)%nat ->
+  (forall x, (x < n)%nat -> nth x height 0 < th) -> (0 < n)%nat ->
+  exists u, partition parents height th = Some u /\ length u = n /\
+    forall x y, (x < n)%nat -> (y < n)%nat ->
+      (nth x u 0%nat = nth y u 0%nat <->
+       exists a, Under parents x a /\ Under parents y a /\ nth a height 0 < th).
+Proof. exact partition_spec. Qed.
+Print Assumptions partition_at_height_spec.
+
+(* (H3c) ... and every cluster of the cut is connected in the constraint graph. *)
+Theorem cut_clusters_connected : forall d n G feat parents height th,
+  ProperDendrogram d n G feat parents height -> (n <= length parents)%nat -> (0 < n)%nat ->
+  (forall x, (x < n)%nat -> nth x height 0 < th) ->
+  exists u, partition parents height th = Some u /\
+    forall x y, (x < n)%nat -> (y < n)%nat -> nth x u 0%nat = nth y u 0%nat ->
+      PathIn G (fun z => (z < n)%nat /\ nth z u 0%nat = nth x u 0%nat) x y.
+Proof. exact ProofsC.cut_clusters_connected. Qed.
+Print Assumptions cut_clusters_connected.
+
+(* (H3d) split(k): for k not above the number of trees the clusters are the
+   trees; otherwise it IS partition at the (k - c)-th largest height (to which
+   H3b/H3c apply when that height is above the leaves').  The COUNT of clusters
+   is the refuted clause H4/H5. *)
+Theorem split_spec_partial : forall d n G feat parents height k,
+  ProperDendrogram d n G feat parents height -> (n <= length parents)%nat -> (0 < n)%nat ->
+  let V := length parents in let c := count_roots parents in let k' := Nat.min k V in
+  ((k' <= c)%nat ->
+     exists u, split parents height k = Some u /\ length u = n /\
+       forall x y, (x < n)%nat -> (y < n)%nat ->
+         (nth x u 0%nat = nth y u 0%nat <-> exists a, Under parents x a /\ Under parents y a)) /\
+  ((c < k')%nat -> split parents height k = partition parents height (nth (V + c - k') (sortq height) 0)).
+Proof. exact split_spec. Qed.
+Print Assumptions split_spec_partial.
+
+(* (H4) REFUTED clause "cutting into k groups yields that many clusters":
+   with tied merge costs split(k) returns more than k clusters
+   (finding split/cluster-count/tied-heights). *)
+Definition path4 : list (nat * nat) := [(0,1);(1,0);(1,2);(2,1);(2,3);(3,2)]%nat.
+Theorem split_gives_k_clusters_refuted :
+  exists d n G feat k p h u, ward true d n G feat = Some (p, h) /\ (1 <= k <= n)%nat /\
+    ward_check d n G feat p h = true /\ split p h k = Some u /\ S (maxl u) <> k.
+Proof. exists 1%nat, 4%nat, path4, [[0];[1];[2];[3]], 3%nat,
+         [4;4;5;5;6;6;6]%nat, [0;0;0;0;1#2;1#2;5], [0;1;2;3]%nat.
+  split; [vm_compute; reflexivity|]. split; [lia|]. split; [vm_compute; reflexivity|].
+  split; [vm_compute; reflexivity|]. cbn. lia. Qed.
+Print Assumptions split_gives_k_clusters_refuted.
+
+(* (H5) REFUTED: split(k), 1 <= k <= n, is not even defined when a merge has
+   cost 0 (identical items): the threshold is 0 and no node is below it
+   (finding split/raises/zero-cost-merge). *)
+Theorem split_defined_refuted :
+  exists d n G feat k p h, ward true d n G feat = Some (p, h) /\ (1 <= k <= n)%nat /\ split p h k = None.
+Proof. exists 1%nat, 4%nat, path4, [[0];[0];[5];[9]], 4%nat, [4;4;5;5;6;6;6]%nat, [0;0;0;0;0;8;57].
+  split; [vm_compute; reflexivity|]. split; [lia|]. vm_compute; reflexivity. Qed.
+Print Assumptions split_defined_refuted.
+
+(* (H6) REFUTED: `ward` is not total on symmetric graphs under a NumPy that
+   rejects int() of a 1-element array (int1 = false, the installed one): the
+   merged pair is also joined by the reverse edge (finding
+   ward/raises/int-of-1-element-array); with int1 = true the same input works. *)
+Definition tri : list (nat * nat) := [(0,1);(0,2);(1,2);(1,0);(2,0);(2,1)]%nat.
+Theorem ward_total_refuted :
+  exists d n G feat, ward false d n G feat = None /\
+    exists p h, ward true d n G feat = Some (p, h) /\ ward_check d n G feat p h = true.
+Proof. exists 2%nat, 3%nat, tri, [[6;6];[0;0];[6;0]]. split; [vm_compute; reflexivity|].
+  exists [3;4;3;4;4]%nat, [0;0;0;18;48]. split; vm_compute; reflexivity. Qed.
+Print Assumptions ward_total_refuted.
